@@ -1,4 +1,5 @@
 import MitmVerif.Model.C40
+import MitmVerif.Model.C40_Http
 import Driver.Proto
 open MitmVerif Driver
 
@@ -58,6 +59,204 @@ def stepLine (σ : Store Nat) (line : String) : Store Nat × String :=
     | some a, some n => let σ' := step ip σ (.copy a n); (σ', render σ')
     | _, _ => bad
   | _ => bad
+
+/-
+  typed layer (Model/C40_Http.lean): a second store over V = Comp.
+    treset | tnew <id> <live> <comp+comp+…> | tedit <a> <edit…> | tbackup <a> | trevert <a> | tcopy <a> <fresh>
+  component tokens: C<a.a.…>  E~|E<msg>.<ts>  B0|B1  A<n>  M<k=v.k=v>  Q<msg>  R~|R<msg>  W~|W<a.a.…>/<m;m;…>
+    msg = <atoms a.a.…>/<hex=hex,…>/<~|hex>/<~|!hex=hex,…>      ws message = typ.fc.hex.ts.dropped.injected
+-/
+def splitNE (s : String) (sep : String) : List String := if s = "" then [] else s.splitOn sep
+
+def atoms? (s : String) : Option (List Nat) := (splitNE s ".").mapM String.toNat?
+def showAtoms (l : List Nat) : String := ".".intercalate (l.map toString)
+
+def field? (s : String) : Option (Bytes × Bytes) :=
+  match s.splitOn "=" with
+  | [k, v] => match hexOr k, hexOr v with
+    | some k, some v => some (k, v)
+    | _, _ => none
+  | _ => none
+def fields? (s : String) : Option Fields := (splitNE s ",").mapM field?
+def showFields (h : Fields) : String := ",".intercalate (h.map fun kv => showBytes kv.1 ++ "=" ++ showBytes kv.2)
+
+def optBytes? (s : String) : Option (Option Bytes) := if s = "~" then some none else (hexOr s).map some
+def showOptBytes : Option Bytes → String | none => "~" | some b => showBytes b
+def optFields? (s : String) : Option (Option Fields) :=
+  if s = "~" then some none else
+  match s.toList with
+  | '!' :: r => (fields? (String.ofList r)).map some
+  | _ => none
+def showOptFields : Option Fields → String | none => "~" | some h => "!" ++ showFields h
+
+def msg? (s : String) : Option Msg :=
+  match s.splitOn "/" with
+  | [a, h, c, t] => match atoms? a, fields? h, optBytes? c, optFields? t with
+    | some a, some h, some c, some t => some ⟨a, h, c, t⟩
+    | _, _, _, _ => none
+  | _ => none
+def showMsg (m : Msg) : String :=
+  showAtoms m.atoms ++ "/" ++ showFields m.headers ++ "/" ++ showOptBytes m.content ++ "/" ++ showOptFields m.trailers
+
+def bool? (s : String) : Option Bool := if s = "1" then some true else if s = "0" then some false else none
+def b2s (b : Bool) : String := if b then "1" else "0"
+
+def wsMsg? (s : String) : Option WsMsg :=
+  match s.splitOn "." with
+  | [t, fc, c, ts, d, i] => match t.toNat?, bool? fc, hexOr c, ts.toNat?, bool? d, bool? i with
+    | some t, some fc, some c, some ts, some d, some i => some ⟨t, fc, c, ts, d, i⟩
+    | _, _, _, _, _, _ => none
+  | _ => none
+def showWsMsg (m : WsMsg) : String :=
+  toString m.typ ++ "." ++ b2s m.fromClient ++ "." ++ showBytes m.content ++ "." ++ toString m.ts ++ "." ++
+    b2s m.dropped ++ "." ++ b2s m.injected
+
+def comp? (s : String) : Option Comp :=
+  match s.toList with
+  | 'C' :: r => (atoms? (String.ofList r)).map .conn
+  | 'E' :: r =>
+    let r := String.ofList r
+    if r = "~" then some (.err none) else
+    match atoms? r with
+    | some [m, t] => some (.err (some ⟨m, t⟩))
+    | _ => none
+  | 'B' :: r => (bool? (String.ofList r)).map .flag
+  | 'A' :: r => (String.ofList r).toNat?.map .atom
+  | 'M' :: r =>
+    ((splitNE (String.ofList r) ".").mapM fun (kv : String) => match String.splitOn kv "=" with
+      | [k, v] => match String.toNat? k, String.toNat? v with
+        | some k, some v => some (k, v)
+        | _, _ => none
+      | _ => none).map .mdata
+  | 'Q' :: r => (msg? (String.ofList r)).map .req
+  | 'R' :: r =>
+    let r := String.ofList r
+    if r = "~" then some (.resp none) else (msg? r).map fun m => .resp (some m)
+  | 'W' :: r =>
+    let r := String.ofList r
+    if r = "~" then some (.ws none) else
+    match r.splitOn "/" with
+    | [a, ms] => match atoms? a, (splitNE ms ";").mapM wsMsg? with
+      | some a, some ms => some (.ws (some ⟨ms, a⟩))
+      | _, _ => none
+    | _ => none
+  | _ => none
+
+def showComp : Comp → String
+  | .conn fs => "C" ++ showAtoms fs
+  | .err none => "E~"
+  | .err (some e) => "E" ++ toString e.msg ++ "." ++ toString e.ts
+  | .flag b => "B" ++ b2s b
+  | .atom a => "A" ++ toString a
+  | .mdata m => "M" ++ ".".intercalate (m.map fun kv => toString kv.1 ++ "=" ++ toString kv.2)
+  | .req r => "Q" ++ showMsg r
+  | .resp none => "R~"
+  | .resp (some r) => "R" ++ showMsg r
+  | .ws none => "W~"
+  | .ws (some w) => "W" ++ showAtoms w.atoms ++ "/" ++ ";".intercalate (w.messages.map showWsMsg)
+
+def showComps (l : List Comp) : String := "+".intercalate (l.map showComp)
+
+def renderT (σ : Store Comp) : String :=
+  if σ.flows.isEmpty then "-" else
+  "|".intercalate (σ.flows.map fun f =>
+    let b := match f.backup with
+      | none => "-"
+      | some (i, vs) => toString i ++ "+" ++ showComps vs
+    toString f.id ++ ":" ++ b2s f.live ++ ":" ++ showComps (content σ f) ++ ":" ++ b ++ ":" ++ b2s (modified σ f))
+
+def msgEdit? : List String → Option MsgEdit
+  | ["atom", k, a] => match k.toNat?, a.toNat? with
+    | some k, some a => some (.atom k a)
+    | _, _ => none
+  | ["hset", k, v] => match hexOr k, hexOr v with
+    | some k, some v => some (.hset k v)
+    | _, _ => none
+  | ["hdel", k] => (hexOr k).map .hdel
+  | ["hadd", k, v] => match hexOr k, hexOr v with
+    | some k, some v => some (.hadd k v)
+    | _, _ => none
+  | ["content", c] => (optBytes? c).map .content
+  | ["tset", t] => (optFields? t).map .tset
+  | ["thset", k, v] => match hexOr k, hexOr v with
+    | some k, some v => some (.thset k v)
+    | _, _ => none
+  | _ => none
+
+def edit? : List String → Option Edit
+  | ["conn", j, k, a] => match j.toNat?, k.toNat?, a.toNat? with
+    | some j, some k, some a => some (.connField j k a)
+    | _, _, _ => none
+  | ["errset", e] => match comp? ("E" ++ e) with
+    | some (.err e) => some (.errSet e)
+    | _ => none
+  | ["errmsg", a] => a.toNat?.map .errMsg
+  | ["flag", b] => (bool? b).map .flagSet
+  | ["atom", j, a] => match j.toNat?, a.toNat? with
+    | some j, some a => some (.atomSet j a)
+    | _, _ => none
+  | ["mset", k, v] => match k.toNat?, v.toNat? with
+    | some k, some v => some (.metaSet k v)
+    | _, _ => none
+  | ["mdel", k] => k.toNat?.map .metaDel
+  | ["mrep", m] => match comp? m with
+    | some (.mdata m) => some (.metaReplace m)
+    | _ => none
+  | "req" :: r => (msgEdit? r).map .req
+  | "resp" :: r => (msgEdit? r).map .resp
+  | ["reqrep", q] => match comp? q with
+    | some (.req r) => some (.reqReplace r)
+    | _ => none
+  | ["resprep", q] => match comp? q with
+    | some (.resp r) => some (.respReplace r)
+    | _ => none
+  | ["ws", "append", m] => (wsMsg? m).map fun m => .ws (.append m)
+  | ["ws", "pop"] => some (.ws .pop)
+  | ["ws", "setc", i, c] => match i.toNat?, hexOr c with
+    | some i, some c => some (.ws (.setContent i c))
+    | _, _ => none
+  | ["ws", "drop", i, b] => match i.toNat?, bool? b with
+    | some i, some b => some (.ws (.drop i b))
+    | _, _ => none
+  | ["ws", "atom", k, a] => match k.toNat?, a.toNat? with
+    | some k, some a => some (.ws (.atom k a))
+    | _, _ => none
+  | ["wsrep", w] => match comp? w with
+    | some (.ws w) => some (.wsReplace w)
+    | _ => none
+  | _ => none
+
+def stepLineT (σ : Store Comp) (fs : List String) : Option (Store Comp × String) :=
+  let out := fun (σ' : Store Comp) => some (σ', renderT σ')
+  match fs with
+  | ["treset"] => some (empty (.flag false), "ok")
+  | ["tnew", i, l, cs] =>
+    match i.toNat?, bool? l, (cs.splitOn "+").mapM comp? with
+    | some i, some l, some cs => out (newFlow σ i l cs)
+    | _, _, _ => none
+  | "tedit" :: a :: e =>
+    match a.toNat?, edit? e with
+    | some a, some e => out (stepT ip σ (.edit a e))
+    | _, _ => none
+  | ["tbackup", a] => a.toNat?.bind fun a => out (stepT ip σ (.backup a))
+  | ["trevert", a] => a.toNat?.bind fun a => out (stepT ip σ (.revert a))
+  | ["tcopy", a, n] => match a.toNat?, n.toNat? with
+    | some a, some n => out (stepT ip σ (.copy a n))
+    | _, _ => none
+  | _ => none
+
+structure DS where
+  g : Store Nat
+  t : Store Comp
+
+def stepBoth (d : DS) (line : String) : DS × String :=
+  match fields line with
+  | "treset" :: _ | "tnew" :: _ | "tedit" :: _ | "tbackup" :: _ | "trevert" :: _ | "tcopy" :: _ =>
+    match stepLineT d.t (fields line) with
+    | some (t', o) => ({ d with t := t' }, o)
+    | none => (d, "bad-op")
+  | _ => let (g', o) := stepLine d.g line; ({ d with g := g' }, o)
 end C40Driver
 
-def main : IO Unit := runState C40Driver.stepLine (MitmVerif.C40.empty 0)
+def main : IO Unit :=
+  runState C40Driver.stepBoth { g := MitmVerif.C40.empty 0, t := MitmVerif.C40.empty (.flag false) }
